@@ -861,7 +861,8 @@ def check_c15(tier, seed):
     for d in dropped:
         # any error inside the const probe or inside the const items that evaluate it: the operation is not usable in a const context
         # (E0015 non-const call, E0080 const evaluation failed, E0658 unstable const feature, ...); errors in the declaration itself are C09's
-        if d["part"] in ("probe", "const-items"):
+        if d["part"] in ("probe", "const-items") or (d["part"] == "decl" and d.get("code") in ("E0015", "E0658", "E0744", "E0010", "E0492", "E0493")):
+            # (the listed codes inside the declaration: the body of a generated `const fn` does something a const context does not allow)
             key = (d["case"], d["message"][:120])
             if key in seen:
                 continue
